@@ -17,7 +17,7 @@ func (v mapSliceValue) Interface() any { return v.slice }
 // isKey reports whether e is the key k. A value that == cannot compare (a slice, a map) is
 // not equal to any key: comparing it with a key of its own type would panic.
 func isKey(e, k any) bool {
-	if e != nil && !reflect.TypeOf(e).Comparable() {
+	if e != nil && !reflect.ValueOf(e).Comparable() {
 		return false
 	}
 	return e == k
